@@ -881,8 +881,8 @@ pub fn run_case(tier: &str, seed: u64, idx: u64) -> CaseOut {
         }
         // runs of damaged bytes (a zeroed or overwritten sector): they may cross block, fragment and
         // footer boundaries, which no single-byte mutation does
-        if slice == 0 || thorough {
-            let runs = if thorough { 12 } else { 3 };
+        {
+            let runs = if thorough { 12 } else { 1 };
             for _ in 0..runs {
                 if len < 4 {
                     break;
@@ -919,7 +919,17 @@ pub fn run_case(tier: &str, seed: u64, idx: u64) -> CaseOut {
             if *image.files[path] == *before {
                 continue; // the mutation did not change the byte (zeroing a zero)
             }
-            let structure = structure_at(&base, path, offset);
+            let mut structure = structure_at(&base, path, offset);
+            if let Some(run) = what.split(" run of ").nth(1).and_then(|n| n.parse::<usize>().ok()) {
+                // a run is named after the most consequential field it covers: a fragment header's
+                // length (what decides where the reader goes next), else its type, else where it starts
+                let covered: Vec<&'static str> = (offset..(offset + run).min(len)).map(|o| structure_at(&base, path, o)).collect();
+                if let Some(s) = covered.iter().find(|s| s.starts_with("log-header-length")) {
+                    structure = s;
+                } else if let Some(s) = covered.iter().find(|s| s.starts_with("log-header-type")) {
+                    structure = s;
+                }
+            }
             let ctx = json!({"base": base.description, "file": path.display().to_string(), "offset": offset, "of": len, "mutation": what, "structure": structure});
             images += 1;
             let panics_before = watch::peek_panics().len();
